@@ -19,7 +19,7 @@ import numpy as np  # noqa: E402
 
 import strawberryfields as sf  # noqa: E402
 from strawberryfields import ops  # noqa: E402
-from strawberryfields.backends.states import BaseFockState, BaseGaussianState  # noqa: E402
+from strawberryfields.backends.states import BaseBosonicState, BaseFockState, BaseGaussianState  # noqa: E402
 
 from vlib import coq  # noqa: E402
 
@@ -505,7 +505,7 @@ def replay_corpus(ctx):
 
 def _search(ctx, rng):
     replay_corpus(ctx)
-    n_cases = ctx.budget(70, 700)
+    n_cases = ctx.budget(160, 3200)
     for i in range(n_cases):
         be = ["gaussian", "bosonic", "fock", "gaussian"][i % 4]
         spec = gen_spec(rng, be)
@@ -613,7 +613,7 @@ def units_eval(case, h):
 
 
 def _search_units(ctx, rng):
-    for _ in range(ctx.budget(25, 250)):
+    for _ in range(ctx.budget(50, 1000)):
         case = units_case(rng)
         h = rng.choice(HBARS) if rng.random() < 0.7 else _r3(rng.uniform(0.3, 5))
         bad = units_eval(case, h)
@@ -664,7 +664,7 @@ def utils_eval(case, h):
 
 
 def _search_utils(ctx, rng):
-    for _ in range(ctx.budget(25, 250)):
+    for _ in range(ctx.budget(50, 1000)):
         case = utils_case(rng)
         h = rng.choice(HBARS) if rng.random() < 0.7 else _r3(rng.uniform(0.3, 5))
         bad = utils_eval(case, h)
@@ -790,7 +790,7 @@ def same_log(impl, model):
 
 def corr_frontend(ctx):
     rng = ctx.rng
-    n_cases = ctx.budget(120, 1200)
+    n_cases = ctx.budget(250, 4000)
     cases = []
     for _ in range(n_cases):
         spec = gen_corr_spec(rng)
@@ -878,7 +878,7 @@ def tie_broken(ctx, sig, msg, spec, h):
 
 def corr_states(ctx):
     rng = ctx.rng
-    n_cases = ctx.budget(150, 1500)
+    n_cases = ctx.budget(300, 5000)
     cases = []
     for _ in range(n_cases):
         n = rng.randint(1, 3)
@@ -970,7 +970,7 @@ def corr_fock_utils(ctx):
     from strawberryfields.utils import states as us
     rng = ctx.rng
     cases = []
-    for _ in range(ctx.budget(60, 600)):
+    for _ in range(ctx.budget(150, 3000)):
         cutoff = rng.randint(2, 6)
         a = np.array([[complex(rng.uniform(-1, 1), rng.uniform(-1, 1)) for _ in range(cutoff)] for _ in range(cutoff)])
         rho = a @ a.conj().T
@@ -989,10 +989,24 @@ def corr_fock_utils(ctx):
         al = r * np.exp(1j * ph)
         coh = us.coherent_state(r, ph, basis="gaussian", hbar=h)
         sq = us.squeezed_cov(rs, 0.0, hbar=h)
-        impl = [float(mean), float(var), float(coh[0][0]), float(coh[0][1]), float(coh[1][0, 0]), float(sq[0, 0]), float(sq[1, 1])]
-        term = "[fock_quad_mean FF %s %s %s %s; fock_quad_var FF %s %s %s %s %s; util_mean FF %s %s; util_mean FF %s %s; util_cov FF %s 1%%float; util_cov FF %s %s; util_cov FF %s %s]" % (
+        # a one-mode linear combination of Gaussians (internal hbar=2 data: means, covs, weights)
+        nw = rng.randint(1, 4)
+        wts = np.array([rng.uniform(0.1, 1.0) for _ in range(nw)])
+        wts = wts / wts.sum()
+        bm = np.array([[rng.uniform(-1, 1), rng.uniform(-1, 1)] for _ in range(nw)])
+        bc = []
+        for _ in range(nw):
+            g = np.array([[rng.uniform(-1, 1) for _ in range(2)] for _ in range(2)])
+            bc.append(g @ g.T + np.eye(2))
+        bc = np.array(bc)
+        with Hbar(h):
+            bst = BaseBosonicState((bm.copy(), bc.copy(), wts.copy()), 1, nw)
+            bmean = float(np.real(bst.mean_photon(0)[0]))
+            bl = coq.coq_list(["(%s, %s, %s)" % (F(w), F(np.trace(cv)), F(float(m @ m))) for w, m, cv in zip(bst.weights(), bst.means(), bst.covs())])
+        impl = [float(mean), float(var), float(coh[0][0]), float(coh[0][1]), float(coh[1][0, 0]), float(sq[0, 0]), float(sq[1, 1]), bmean]
+        term = "[fock_quad_mean FF %s %s %s %s; fock_quad_var FF %s %s %s %s %s; util_mean FF %s %s; util_mean FF %s %s; util_cov FF %s 1%%float; util_cov FF %s %s; util_cov FF %s %s; bos_mean_photon FF %s %s]" % (
             c, F(np.cos(phi)), F(np.sin(phi)), l, c, F(np.cos(phi)), F(np.sin(phi)), l, F(Q),
-            c, F(al.real), c, F(al.imag), c, c, F(np.exp(-2 * rs)), c, F(np.exp(2 * rs)))
+            c, F(al.real), c, F(al.imag), c, c, F(np.exp(-2 * rs)), c, F(np.exp(2 * rs)), c, bl)
         cases.append((impl, term, h, cutoff))
         ctx.case({"corr": "fock-utils", "cutoff": cutoff, "h": h, "phi": phi, "r": r, "rs": rs}, nontrivial=h != 2, bucket="corrB:fock-utils")
     sf.hbar = 2
@@ -1002,7 +1016,7 @@ def corr_fock_utils(ctx):
     if not ok:
         ctx.obligation("correspondence:fock-utils", False, raw)
         return
-    names = ["fock quad_expectation mean", "fock quad_expectation var", "coherent_state mean x", "coherent_state mean p", "coherent_state cov", "squeezed_cov xx", "squeezed_cov pp"]
+    names = ["fock quad_expectation mean", "fock quad_expectation var", "coherent_state mean x", "coherent_state mean p", "coherent_state cov", "squeezed_cov xx", "squeezed_cov pp", "bosonic mean_photon"]
     for (impl, _, h, cutoff), mv in zip(cases, vals[0]):
         ctx.traces += 1
         for nm, a, b in zip(names, impl, mv):
